@@ -27,6 +27,9 @@ from lbry.extras.daemon.migrator.dbmigrator import migrate_db
 from lbry.stream.descriptor import StreamDescriptor
 from lbry.stream.stream_manager import StreamManager
 from lbry.schema.claim import Claim
+from lbry.blob_exchange.server import BlobServer
+from lbry.stream.background_downloader import BackgroundDownloader
+import socket
 
 import vlib
 
@@ -97,16 +100,18 @@ def mb(n):
     return n // MIB
 
 
-def classify(s, ignore=()):
+def classify(s, ignore=(), seeded=()):
     """independent reading of the storage classes: bytes per class and the removable rows of each pass.
-    ignore: hashes treated as not stored (rows whose file was already gone at the last restart)"""
+    ignore: hashes treated as not stored (rows whose file was already gone at the last restart)
+    seeded: hashes known to have arrived through the BackgroundDownloader (network seeding): they ARE network storage,
+            whatever rows the download left behind"""
     sd_hashes = {sd for _, sd in s.streams}
     sb_count = collections.Counter(bh for _, bh in s.sblobs)
     net = content = private = 0
     for h, ln, _a, mine, fin in s.blobs:
-        if not fin or h in sd_hashes or h in ignore:
+        if not fin or (h in sd_hashes and h not in seeded) or h in ignore:
             continue
-        k = sb_count.get(h, 0)
+        k = 0 if h in seeded else sb_count.get(h, 0)
         if k == 0:
             net += ln
             if mine:
@@ -126,6 +131,10 @@ def classify(s, ignore=()):
     removable = {False: [], True: []}      # rows (hash, len, added) with join multiplicity
     for h, ln, a, mine, fin in s.blobs:
         if mine:
+            continue
+        if h in seeded:
+            if fin:
+                removable[True].append((h, ln, a))
             continue
         if fin:
             for sh in streams_of_blob.get(h, ()):
@@ -311,7 +320,47 @@ async def _build_real(loop, d, bd, st, bm, conf, spec):
                                                1600000000 + j, False, bm.blob_completed)
     await settle()
     sm.stop()
-    return published, sds
+    seeded = []
+    if spec.get('seeded'):
+        # network seeding as it really happens: a peer (second node, loopback BlobServer) hosts streams and THIS node fetches
+        # them through BackgroundDownloader.download_blobs()
+        pdir = os.path.join(d, 'peer')
+        os.mkdir(pdir)
+        pconf = Config(data_dir=pdir, wallet_dir=pdir, download_dir=pdir, config=os.path.join(pdir, 'c.yml'),
+                       tracker_servers=[], reflector_servers=[], fixed_peers=[], track_bandwidth=False)
+        pst = SQLiteStorage(pconf, os.path.join(pdir, 'lbrynet.sqlite'))
+        await pst.open()
+        pbm = BlobManager(loop, pdir, pst, pconf)
+        await pbm.setup()
+        descs = []
+        for j, size in enumerate(spec['seeded']):
+            path = os.path.join(pdir, 'seed%d.bin' % j)
+            with open(path, 'wb') as f:
+                f.write(bytes([100 + j]) * size)
+            descs.append(await StreamDescriptor.create_stream(loop, pdir, path, blob_completed_callback=pbm.blob_completed))
+        await settle()
+        sock = socket.socket()
+        sock.bind(('127.0.0.1', 0))
+        port = sock.getsockname()[1]
+        sock.close()
+        server = BlobServer(loop, pbm, 'bQEaw42GXsgCAGio1nxFncJSyRmnztSCjP')
+        server.start_server(port, '127.0.0.1')
+        await server.started_listening.wait()
+        conf.tracker_servers = []
+        conf.fixed_peers = [('127.0.0.1', port)]
+        conf.blob_download_timeout = 5.0
+        try:
+            for desc in descs:
+                await asyncio.wait_for(BackgroundDownloader(conf, st, bm, None).download_blobs(desc.sd_hash), 60)
+                seeded += [desc.sd_hash] + [b.blob_hash for b in desc.blobs[:-1]]
+            for _ in range(5):
+                await asyncio.sleep(0.03)
+                await st.db.run(lambda t: None)
+        finally:
+            server.stop_server()
+            pbm.stop()
+            await pst.close()
+    return published, sds, seeded
 
 
 async def _run_impl(d, case):
@@ -370,7 +419,7 @@ async def _run_impl(d, case):
     derived = None
     real_sds = []
     if case.get('real') and db is None:
-        real_published, real_sds = await _build_real(loop, d, bd, st, bm, conf, case['real'])
+        real_published, real_sds, real_seeded = await _build_real(loop, d, bd, st, bm, conf, case['real'])
         con = sqlite3.connect(dbpath)
         unhex = {}
         try:
@@ -393,6 +442,9 @@ async def _run_impl(d, case):
         derived = {'blobs': [list(b) for b in s0.blobs], 'sblobs': [list(x) for x in s0.sblobs],
                    'streams': [list(x) for x in s0.streams], 'files': list(s0.files), 'disk': list(s0.disk)}
         derived['published'] = sorted(unhex[h] for h in real_published)
+        derived['seeded'] = sorted(unhex[h] for h in real_seeded if h in unhex)
+        if len(derived['seeded']) != len(real_seeded):
+            raise RuntimeError('background download did not fetch every blob of the seeded streams')
         db = derived
     else:
         ids = set()
@@ -977,6 +1029,27 @@ def large_case():
             'ops': [['pass', False, 100], ['repeat'], ['clean', 50, 0]]}
 
 
+def gen_seeded(rng):
+    """this node holds ordinary downloads (and maybe a publication) and seeds streams fetched from a peer through the
+    BackgroundDownloader; one clean() with the content limit at / above the real content usage and a small network limit"""
+    sizes = [1100000, 1500000, 2500000]
+    streams = [{'size': rng.choice(sizes), 'mine': rng.random() < 0.3, 'file': True} for _ in range(rng.randrange(1, 3))]
+    seeded = [rng.choice([2500000, 4300000]) for _ in range(rng.randrange(1, 3))]
+    cl = sum(sp['size'] for sp in streams) // MIB + 1
+    ops = [['clean', cl, rng.choice([0, 1])], ['repeat'], ['pass', True, 0], ['pass', False, cl]]
+    return {'real': {'streams': streams, 'net': [], 'seeded': seeded}, 'ops': ops}
+
+
+def gen_multi_recover(rng):
+    """two or three published streams (and a download) all lose their descriptor file and are recovered in ONE start"""
+    sizes = [1100000, 2500000, 4300000]
+    streams = [{'size': rng.choice(sizes), 'mine': True, 'file': True} for _ in range(rng.randrange(2, 4))]
+    streams.insert(rng.randrange(len(streams) + 1), {'size': rng.choice(sizes), 'mine': False, 'file': True})
+    ops = [['lose_sd', j] for j in range(len(streams))] + [['setup', 1000001], ['recover_start', 1000002],
+                                                         ['pass', False, rng.choice([1, 2, -1])], ['clean', 1, 0]]
+    return {'real': {'streams': streams, 'net': []}, 'ops': ops}
+
+
 def gen_real(rng):
     sizes = [300000, 1100000, 1500000, 2097151, 2500000, 4194302, 4300000, 6500000]
     streams = [{'size': rng.choice(sizes), 'mine': rng.random() < 0.35, 'file': rng.random() < 0.85}
@@ -1000,7 +1073,8 @@ def gen_real(rng):
         # a descriptor file is lost; the node restarts (blob manager, then stream manager: start-up recovery); then a
         # content pass that walks its whole candidate list
         k = rng.randrange(len(streams))
-        ops += [['lose_sd', k], ['setup', 1000001], ['recover_start', 1000002],
+        lost = [['lose_sd', j] for j in range(len(streams))] if rng.random() < 0.5 else [['lose_sd', k]]   # one or ALL streams
+        ops += lost + [['setup', 1000001], ['recover_start', 1000002],
                 rng.choice([['pass', False, ['neg', 0]], ['pass', False, ['abs', 1]], ['clean', ['abs', 1], ['neg', 0]]])]
     if rng.random() < 0.4:
         ops.append(rng.choice([['pass', False, ['neg', 0]], ['pass', True, ['neg', 0]], ['clean', ['neg', 0], ['neg', 0]]]))
@@ -1019,7 +1093,8 @@ def check_case(run, model, case, kind):
     impl, resolved, passes = run_impl(case)
     case = dict(case, ops=resolved, kind=kind)       # self-contained: every limit absolute, repeats expanded
     if impl.get('derived_db') is not None:           # state built through the application's API: keep its row-level form
-        case = dict(case, db=impl['derived_db'], origin=case.get('real'), published=impl['derived_db'].pop('published'))
+        case = dict(case, db=impl['derived_db'], origin=case.get('real'), published=impl['derived_db'].pop('published'),
+                    seeded=impl['derived_db'].pop('seeded'))
         case.pop('real', None)
     pos = {}
     for i, h in enumerate(impl['init_cands']):
@@ -1069,6 +1144,26 @@ def check_case(run, model, case, kind):
                        'case': hashlib.sha1(vlib.canon(case).encode()).hexdigest()[:12]}
             bad = (text, sig)
         prev = p
+    seeded = set(case.get('seeded') or ())
+    if seeded:
+        run.count('blobs fetched through BackgroundDownloader from a loopback peer')
+        # ground truth: what arrived through the BackgroundDownloader is network storage -- limited by network_storage_limit,
+        # never charged to the content class
+        for p in passes:
+            if bad:
+                break
+            tpre, tpost = classify(p['pre'], seeded=seeded), classify(p['post'], seeded=seeded)
+            sig = {'clause': 'seeded-blobs-class', 'net': p['net'], 'limit': p['limit'],
+                   'case': hashlib.sha1(vlib.canon(case).encode()).hexdigest()[:12]}
+            if not p['net'] and p['deleted'] and tpre['used'][False] <= p['limit']:
+                bad = (f"the content pass deleted {len(p['deleted'])} blob(s) although content usage is {tpre['used'][False]} MB "
+                       f"<= limit {p['limit']} MB: {classify(p['pre'])['used'][False]} MB are charged to the content class, "
+                       f"network-seeded blobs among them", sig)
+            elif p['net'] and tpre['used'][True] > p['limit'] and well_formed(p['pre']) and \
+                    sum(mb(r[1]) for r in tpre['removable'][True]) >= tpre['used'][True] - p['limit'] and \
+                    tpost['used'][True] > p['limit']:
+                bad = (f"after the network pass {tpost['used'][True]} MB of network-seeded blobs are stored, limit {p['limit']} MB, "
+                       f"although all of them are removable (the pass saw {classify(p['pre'])['used'][True]} MB of network usage)", sig)
     for c in impl['cleans']:
         cp = classify(c['pre'])
         if cp['used'][False] > c['cl'] != 0 and cp['used'][True] > c['nl']:
@@ -1214,6 +1309,10 @@ def main(run):
         for c in exhaustive_cases():
             check_case(run, model, c, 'exhaustive')
         run.exhaustive = True
+    for _ in range(vlib.scaled(run.tier, 3, 40)):
+        check_case(run, model, gen_seeded(rng), 'real-api-seeded')
+    for _ in range(vlib.scaled(run.tier, 4, 40)):
+        check_case(run, model, gen_multi_recover(rng), 'real-api-recover')
     for _ in range(vlib.scaled(run.tier, 25, 400)):
         check_case(run, model, gen_real(rng), 'real-api')
         run.count('state built through the application API')
@@ -1249,6 +1348,7 @@ def replay(run, case):
         case = dict(case, real=case['origin'])
         case.pop('db', None)
         case.pop('published', None)
+        case.pop('seeded', None)
     model = vlib.Model('C19')
     check_case(run, model, case, case.get('kind', 'replay'))
     model.close()
